@@ -48,12 +48,23 @@ def declsOk : List Decl → Bool
        ds.all (fun d' => d'.name != n || (match d' with | .exp _ | .fwd _ => true | _ => false))
      | .exp n | .fwd n => ds.all (fun d' => d'.name != n || (match d' with | .imp _ _ => false | _ => true)))
 
+/-- the module objects (id, text) built by the history, oldest first; argument: history, most recent
+call first -/
+def loadsR : List Op → List (Nat × List Decl)
+  | [] => []
+  | .loadModule id ds :: r => loadsR r ++ [(id, ds)]
+  | _ :: r => loadsR r
+
 /-- modules (id, imported names) loaded since the last link that installed an interface;
 argument: history, most recent call first -/
 def pendingModsR : List Op → List (Nat × List Name)
   | [] => []
   | .link (some _) _ :: _ => []
   | .loadModule id ds :: r => pendingModsR r ++ [(id, declImports ds)]
+  | .reload k :: r =>          -- a reload is a load event like any other
+    match (loadsR r)[k]? with
+    | some (id, ds) => pendingModsR r ++ [(id, declImports ds)]
+    | none => pendingModsR r
   | _ :: r => pendingModsR r
 
 def pendingR (r : List Op) : List Name := (pendingModsR r).flatMap (·.2)
@@ -65,6 +76,13 @@ def lastDefR : List Op → Name → Option Def
   | .loadModule id ds :: r, n =>
     match declExport id ds n with
     | some d => some d
+    | none => lastDefR r n
+  | .reload k :: r, n =>
+    match (loadsR r)[k]? with
+    | some (id, ds) =>
+      match declExport id ds n with
+      | some d => some d
+      | none => lastDefR r n
     | none => lastDefR r n
   | .loadExternal m a :: r, n => if m = n then some (.ext a) else lastDefR r n
   | .link _ res :: r, n =>
